@@ -204,6 +204,15 @@ def genericTimestep (mv : Moves) (q : GenericSampler) (beta : Rat) (rng : List N
   let w4 := mv.freeFlip w3
   ({ q with state := w4.state, slots := w4.slots, cutoff := c1 }, w4.rng)
 
+/-- NOT the code — kept for the negative example in QmcProps/C15.lean (seeded mutation C15-17):
+`diagonal_update` choosing the sweep by the PRESENCE of the cached weight table instead of the
+`do_heatbath` flag.  The second component is "the table is cached"; `set_do_heatbath(false)` leaves it. -/
+def stickyTimestep (mv : Moves) (x : GenericSampler × Bool) (beta : Rat) (rng : List Nat) :
+    (GenericSampler × Bool) × List Nat :=
+  let cached := x.2 || x.1.doHeatbath
+  let r := genericTimestep mv { x.1 with doHeatbath := cached } beta rng
+  (({ r.1 with doHeatbath := x.1.doHeatbath }, cached), r.2)
+
 /-- `QmcIsingGraph::single_diagonal_step` -/
 def isingDiagStep (mv : Moves) (g : IsingSampler) (beta : Rat) (rng : List Nat) :
     IsingSampler × List Nat :=
